@@ -413,6 +413,8 @@ def _outcome_of_call(fn, text, pos, full, keep=None):
         return {'err': 'RecursionError'}, None
     except Exception as e:
         raw = getattr(e, 'partial_result', None)
+        if keep is not None:
+            keep.append(e)          # `except ParseError as e: errors.append(e)`
         return fpm.outcome_fp('exc', e), raw
 
 
@@ -447,6 +449,8 @@ def run_op(env, ctx, op, path=()):
                                             keep=env.kept if op.get('keep_exc') else None)
                 if op.get('keep_exc') and 'abort' in out:
                     env.count('abandoned_call_kept_alive_by_its_exception')
+                elif op.get('keep_exc') and 'err' in out:
+                    env.count('failed_call_kept_alive_by_its_exception')
                 del text
         except mon.StepBudget:
             out, raw = {'err': 'nontermination'}, None
